@@ -27,8 +27,8 @@ from worlds.server_world import reply_codes
 PROPERTY = 'C08'
 LEVEL = 'exploration'
 EXHAUSTIVE = True
-RULE = ('S: 4 session prefixes x 7 injected byte strings x {same segment, later segment, (thorough) split at every byte between the two} x 5 TLS-channel scripts '
-        '(+ immediate TLS); C: 5 injected reply strings behind the 220; A: mechanisms {PLAIN, LOGIN, CRAM-MD5, unknown, '
+RULE = ('S: 4 session prefixes x 14 injected byte strings (thorough: + every ordered pair of 12 tokens) x {same segment, later segment, (thorough) split at every byte between the two} x 5 TLS-channel scripts '
+        '(+ immediate TLS); C: 11 injected reply strings behind the 220; A: mechanisms {PLAIN, LOGIN, CRAM-MD5, unknown, '
         'none} x argument shapes {initial response, challenge/response, cancel, bad base64, empty, missing} x Unicode '
         'credentials (3 users x 3 secrets x 2 authzids; 7 x 8 x 2 in thorough) x TLS {off, STARTTLS, immediate} x position {before EHLO, normal, '
         'after success, inside a transaction} x validator verdict {accept, 535}.  Every combination is run on the real '
@@ -57,6 +57,25 @@ INJECT = {
     'rcpt': b'RCPT TO:<evil@y>\r\n',
     'noop': b'NOOP\r\n',
 }
+# more single tokens, and (thorough) every ordered pair of tokens
+TOKENS = {'mail': b'MAIL FROM:<evil@x>\r\n', 'ehlo': b'EHLO evil\r\n', 'rcpt': b'RCPT TO:<evil@y>\r\n', 'noop': b'NOOP\r\n',
+          'quit': b'QUIT\r\n', 'data': b'DATA\r\n', 'rset': b'RSET\r\n', 'starttls': b'STARTTLS\r\n', 'auth': b'AUTH PLAIN AHUAcA==\r\n',
+          'crlf': b'\r\n', '8bit': b'\xff\xfe\x00 junk\r\n', 'half': b'MAIL FR'}
+for _k in ('quit', 'data', 'rset', 'starttls', 'auth', 'crlf', '8bit'):
+    INJECT[_k] = TOKENS[_k]
+INJECT_PAIRS = {}
+for _a in TOKENS:
+    for _b in TOKENS:
+        if _a != 'half' and (_a + '+' + _b) not in INJECT:
+            INJECT_PAIRS[_a + '+' + _b] = TOKENS[_a] + TOKENS[_b]
+
+
+def injections(tier):
+    if tier == 'thorough':
+        INJECT.update(INJECT_PAIRS)
+    return list(INJECT)
+
+
 TLS_SCRIPTS = {
     'full': [b'EHLO t\r\n', b'MAIL FROM:<t@x>\r\n', b'RCPT TO:<r@y>\r\n', CONTENT, b'QUIT\r\n'],
     'mail-first': [b'MAIL FROM:<t@x>\r\n', b'RCPT TO:<r@y>\r\n', b'QUIT\r\n'],
@@ -140,7 +159,8 @@ def check_s(case, res):
 
 # ---------------------------------------------------------------- client side
 C_INJECT = {'none': b'', 'ehlo-reply': b'250-evil\r\n250 AUTH PLAIN\r\n', 'partial': b'250 o', 'error': b'550 5.0.0 no\r\n',
-            'multi': b'250-evil\r\n'}
+            'multi': b'250-evil\r\n', 'shutdown': b'421 4.3.2 going down\r\n', 'two': b'250 first\r\n250 second\r\n',
+            'blank': b'\r\n', '8bit': b'\xff\xfe junk\r\n', 'challenge': b'334 VXNlcm5hbWU6\r\n', 'one-byte': b'2'}
 
 
 def run_c(inj):
@@ -459,15 +479,18 @@ def check_a(case, res):
 
 # ---------------------------------------------------------------- runner glue
 def s_cases(tier='quick'):
+    injs = injections(tier)
     for prefix in PREFIXES:
-        for inj in INJECT:
+        for inj in injs:
             places = ['same', 'later']
-            if tier == 'thorough':
+            if tier == 'thorough' and inj not in INJECT_PAIRS:
                 places += ['split:%d' % k for k in range(1, len(INJECT[inj]))]
+            elif tier == 'thorough':
+                places += ['split:%d' % len(TOKENS[inj.split('+')[0]])]      # the cut between the two tokens
             for place in places:
                 for script in TLS_SCRIPTS:
                     yield (prefix, inj, place, script, 'starttls')
-    for inj in INJECT:
+    for inj in injs:
         for script in TLS_SCRIPTS:
             yield ('-', inj, 'same', script, 'immediate')
 
@@ -523,6 +546,7 @@ def vacuity(counters, tier):
 def replay(rep):
     res = Result()
     if rep['part'] == 'S':
+        INJECT.update(INJECT_PAIRS)
         vs = check_s(tuple(rep['case']), res)
     elif rep['part'] == 'C':
         vs = check_c(rep['inj'], res)
